@@ -65,7 +65,7 @@ def run(ctx):
     seq = []
     for rx in (r"Cell<[^>]*>::set$|Cell::set$", r"parse_ref$", r"ArgMatcher::add_val_to$", r"ArgMatcher::add_index_to$"):
         cs = [c for c in pa.calls_to(rx) if not sp_macro(c.sp)]
-        res.floor("R2.2", "call %s in push_arg_values" % rx, len(cs), 1)
+        require(fx, res, "R2.2", "step-missing|" + rx.split("::")[-1].rstrip("$"), pa, rx, len(cs), 1, "push_arg_values no longer performs the step %s for each value (value stored without its index / unparsed / not stored)" % rx, local_callee="ArgMatcher" in rx)
         if cs:
             seq.append(cs[0])
     if len(seq) == 4:
